@@ -77,11 +77,17 @@ def _shape(shard):
         f = np.logspace(np.log10(lo), np.log10(hi), 400)
         w = 2 * np.pi * f / fs
         H = np.ones_like(f, dtype=complex)
-        for a, b in zip(g._a_coeffs, g._b_coeffs):
+        try:
+            # the property speaks about "the shaping filter, evaluated analytically": that needs the object's own
+            # coefficient arrays (numerators _a_coeffs, denominators _b_coeffs, output scaling, white-noise rms)
+            acs, bcs, scal, rms2 = g._a_coeffs, g._b_coeffs, g._scaling, g._whitenoise.rms ** 2
+        except AttributeError:
+            out["extra"]["skipped_no_coefficient_access"] = out["extra"].get("skipped_no_coefficient_access", 0) + 1
+            continue
+        for a, b in zip(acs, bcs):
             _, h = freqz(a, b, worN=w)
             H *= h
-        rms2 = g._whitenoise.rms ** 2
-        psd = np.abs(H) ** 2 * g._scaling ** 2 * rms2 / fs
+        psd = np.abs(H) ** 2 * scal ** 2 * rms2 / fs
         dB = 10 * np.log10(psd * f ** alpha)
         out["evals"] += f.size
         out["nontrivial"] += f.size
